@@ -2,6 +2,7 @@ import FeedVerif.Model.DictDriver
 import FeedVerif.Model.UriDriver
 import FeedVerif.Model.OptionsDriver
 import FeedVerif.Model.BaseDriver
+import FeedVerif.Model.CssDriver
 /-!
 Model driver: one operation per input line `<model> <op> <fields…>`, one canonical output line per
 operation.  Run with `lake env lean --run Main.lean`.
@@ -17,6 +18,7 @@ def stepLine (st : DState) (line : String) : DState × String :=
   | "dict" :: rest => let (s, o) := Dict.driverStep st.dict rest; ({ st with dict := s }, o)
   | "uri" :: rest => (st, Uri.driverStep rest)
   | "opts" :: rest => (st, Options.driverStep rest)
+  | "css" :: rest => (st, Css.driverStep rest)
   | "base" :: rest => let (s, o) := Base.driverStep st.base rest; ({ st with base := s }, o)
   | _ => (st, "bad-model")
 
